@@ -375,6 +375,7 @@ def indexing(S, n, t, batch, inter, alphabet):
                 part = d[idx if len(idx) > 1 else idx[0]]
                 got_mean = part.mean
                 got_cov = part.covariance_matrix
+                got_var = part.variance if isinstance(part, MultitaskMultivariateNormal) else None
             except Exception as ex:
                 S.check_concrete(False, lab + " raises", repr(ex)[:200])
                 continue
@@ -385,8 +386,29 @@ def indexing(S, n, t, batch, inter, alphabet):
                                     "%s vs %s" % (tuple(got_mean.shape), tuple(want_mean_t.shape))):
                 continue
             S.prove_eq(got_mean, want_mean if isinstance(want_mean, np.ndarray) else np.array(want_mean, dtype=object), lab + ".mean")
+            if got_var is not None and tuple(got_var.shape) == tuple(want_mean_t.shape):
+                # a follow-up query on the result: its variance, in the layout of its mean
+                ids_v = ids.numpy()
+                Cflat = Cs.reshape(-1, N, N)
+                want_var = np.empty(ids_v.shape, dtype=object)
+                for pos_ in np.ndindex(*ids_v.shape):
+                    g = int(ids_v[pos_])
+                    bb, loc_ = g // N, g % N
+                    want_var[pos_] = Cflat[bb][loc_, loc_]
+                S.prove_eq(got_var, want_var, lab + ".variance (follow-up query on the indexed result)")
             # covariance: sub-matrix for the selected (point,task) pairs, per retained batch element
             ids_np = ids.numpy()
+            if bs and got_cov.dim() == 2 and ids_np.ndim == 1 and tuple(got_cov.shape) == (ids_np.size, ids_np.size) \
+                    and len(np.unique(ids_np // (n * t))) > 1:
+                # the selected entries stem from several (independent) batch elements and are returned as ONE vector:
+                # joint covariance = block structure, zero across batch elements
+                want = np.empty((ids_np.size, ids_np.size), dtype=object)
+                for p_, gp in enumerate(ids_np):
+                    for q_, gq in enumerate(ids_np):
+                        bp, bq = int(gp) // N, int(gq) // N
+                        want[p_, q_] = Cs[bp][int(gp) % N, int(gq) % N] if bp == bq else Sym.const(0.0)
+                S.prove_eq(got_cov, want, lab + ".cov (entries of several batch elements as one vector)")
+                continue
             if bs:
                 bsel = np.unique(ids_np // (n * t))
                 # index kept the batch dim iff result mean has a leading dim matching several batches or a slice was used
@@ -482,6 +504,8 @@ def scenarios(tier, seed):
             add("dist_semantics", n=n, t=t, batch=0, inter=inter)
             add("indexing", n=n, t=t, batch=0, inter=inter, alphabet="q" if tier == "quick" else "t")
     add("constructors", n=3, t=2)
+    for inter in (True, False):
+        add("indexing", n=3, t=2, batch=2, inter=inter, alphabet="q")
     if tier == "thorough":
         add("constructors", n=2, t=3)
         for inter in (True, False):
